@@ -931,7 +931,9 @@ class PseudoNetCDFFile(PseudoNetCDFSelfReg, object):
             varneworder = [dk for dk in neworder if dk in vv.dimensions]
             varorder = [dk for dk in vv.dimensions]
             if len(varneworder) > 0:
-                newvals = vv[:].copy()
+                # from the copy: the variables of a file on disk hand out
+                # plain arrays without dimensions and attributes
+                newvals = (vv if inplace else outf.variables[vk])[:].copy()
                 for newdi, newdk in enumerate(varneworder):
                     axisidx = varorder.index(newdk)
                     if axisidx == newdi:
